@@ -127,6 +127,10 @@ def render_btoks(toks):
             x = '`include "%s"' % t["n"]
         elif k == "cmt":
             x = t["n"]
+        elif k == "def":
+            src = render_btoks(t["a"])
+            t["s"] = src.strip()
+            x = "`define " + t["n"] + " " + src
         elif k == "undef":
             x = "`undef " + t["n"]
         elif k == "undefall":
